@@ -67,6 +67,32 @@ def worker(unit, emit):
             for script in scripts1[::p['opt_stride']]:
                 for s, d in inputs.concretise(base, script, rnd, k=1):
                     rec(s, d, kw)
+    # numbers whose canonical form itself begins with a prefix that compact() strips (a French VAT number whose alphabetic key
+    # spells FR): the doubled prefix with the tail searched for an accepted number -- what validate() returns for it must
+    # validate to itself
+    plits = [L for L in inputs.literals(mod, minlen=2, maxlen=3, cap=80) if L.isalpha() and L.isascii() and L.isupper()][:6]
+    for base in bases[:2]:
+        try:
+            v = mod.validate(base)
+        except Exception:
+            continue
+        if not isinstance(v, str) or not v.isascii() or len(v) < 6:
+            continue
+        for L in plits:
+            body0 = v[len(L):] if v.upper().startswith(L) else v
+            for body in dict.fromkeys([body0[len(L):] if len(body0) > len(L) + 4 else body0, '000' + body0[len(L) + 3:]]):
+                hit = 0
+                for tail in range(100):
+                    x = L + L + body[:-2] + '%02d' % tail
+                    try:
+                        ok = mod.is_valid(x) is True
+                    except Exception:
+                        ok = False
+                    if ok:
+                        rec(x, 'doubled prefix %r, tail searched' % L, {})
+                        hit += 1
+                        if hit >= 2:
+                            break
     # table-driven presentations: a word of a base replaced by a string constant of the module
     lits = inputs.literals(mod, cap=p['lits'])
     for base in bases[:p['lit_bases']]:
